@@ -288,16 +288,69 @@ def check(src, must_return):
 
 
 # ---------------------------------------------------------------------------------- enum half
-def upper_snake(name):
-    """Pascal -> UPPER_SNAKE the way the binding's build script does it (digits do not split)"""
+def upper_snake(name, digit_boundaries=True):
+    """Pascal -> UPPER_SNAKE as convert_case does it: boundaries lower|Upper, acronym (ABc -> A|Bc),
+    digit|letter; for TokenType the build script removes the letter|digit boundaries"""
     out = []
     for i, ch in enumerate(name):
-        if ch.isupper() and i > 0:
-            prev, nxt = name[i - 1], name[i + 1] if i + 1 < len(name) else ""
-            if prev.islower() or (prev.isupper() and nxt.islower()) or (prev.isdigit() and False):
+        if i > 0:
+            prev = name[i - 1]
+            nxt = name[i + 1] if i + 1 < len(name) else ""
+            split = False
+            if ch.isupper() and prev.islower():
+                split = True
+            elif ch.isupper() and prev.isupper() and nxt.islower():
+                split = True
+            elif ch.isalpha() and prev.isdigit():
+                split = True
+            elif ch.isdigit() and prev.isalpha() and digit_boundaries:
+                split = True
+            if split:
                 out.append("_")
         out.append(ch.upper())
     return "".join(out)
+
+
+def linked_crate_enums():
+    """(token types, channels, error kinds) as ordered (python name, value) lists, derived from the
+    SOURCE of the lexer crate the binding links (cargo registry), independent of build.rs"""
+    import glob, re
+    try:
+        ver = open(os.path.join(HERE, "build", "linked_lexer.txt")).read().strip().split(" v")[-1].split()[0]
+    except Exception:
+        return None
+    home = os.path.expanduser(os.environ.get("CARGO_HOME", "~/.cargo"))
+    cands = glob.glob(os.path.join(home, "registry", "src", "*", f"sas-lexer-{ver}", "src", "lexer"))
+    if not cands:
+        return None
+    d = cands[0]
+
+    def enum_body(path, name):
+        src = open(os.path.join(d, path), encoding="utf-8").read()
+        i = src.index(f"pub enum {name} {{")
+        depth, j = 0, src.index("{", i)
+        for k in range(j, len(src)):
+            if src[k] == "{": depth += 1
+            elif src[k] == "}":
+                depth -= 1
+                if depth == 0:
+                    return src[j + 1:k]
+        return ""
+
+    def variants(body):
+        out = []
+        for line in body.split("\n"):
+            line = line.split("//")[0].strip()
+            m = re.match(r"^([A-Za-z][A-Za-z0-9_]*)\s*(=\s*(\d+))?\s*,?$", line)
+            if m and not line.startswith("#"):
+                out.append((m.group(1), int(m.group(3)) if m.group(3) else None))
+        return out
+
+    tt = [(upper_snake(n, digit_boundaries=False), i) for i, (n, _) in enumerate(variants(enum_body("token_type.rs", "TokenType")))]
+    ch_v = variants(enum_body("channel.rs", "TokenChannel"))
+    ch = [(n, v if v is not None else i) for i, (n, v) in enumerate(ch_v)]
+    ek = sorted(((upper_snake(n), v) for n, v in variants(enum_body("error.rs", "ErrorKind")) if v is not None), key=lambda x: x[1])
+    return tt, ch, ek
 
 
 def enum_half():
@@ -329,6 +382,17 @@ def enum_half():
                 v.append(("enum-files", f"enum-files:name-shape:{E.__name__}", f"{E.__name__}.{m.name} is not UPPER_SNAKE"))
     if [m.value for m in TT] != list(range(len(TT))):
         v.append(("enum-files", "enum-files:token-type-values", "TokenType values are not 0..COUNT-1 in declaration order"))
+    # independent of build.rs: the shipped enums must be what the linked crate's source declares
+    lc = linked_crate_enums()
+    if lc is None:
+        stats["labels"]["enum-source-comparison-skipped(registry source not found)"] = 1
+    else:
+        for E, exp in zip((TT, TC, EK), lc):
+            got = [(m.name, int(m.value)) for m in E]
+            if got != exp:
+                k = next((i for i, (a, b) in enumerate(zip(got, exp)) if a != b), min(len(got), len(exp)))
+                v.append(("enum-files", f"enum-files:differs-from-linked-crate:{E.__name__}", f"{E.__name__}: shipped enum differs from the linked crate's declaration at member {k}: shipped {got[k] if k < len(got) else '<missing>'} vs crate {exp[k] if k < len(exp) else '<missing>'} ({len(got)} vs {len(exp)} members)"))
+        stats["labels"]["enum-source-comparison"] = sum(len(x) for x in lc)
     return v, compared, members
 
 
